@@ -6,8 +6,9 @@
      event  =  S <gop>* ;            new set object: the operations, then SendSet
             |  C <k> <gop>* ;        the same on the set object of the k-th S event (0-based)
             |  W                     wait for the template refresh (UDP)
-            |  X <seq0>              close the exporting process, start a new one (same collector,
-                                     same observation domain), set its counter to seq0
+            |  X <seq0|->            close the exporting process, start a new one (same collector,
+                                     same observation domain); set its counter to seq0 through
+                                     the verif hook, or ("-") leave it as created: 0
      gop    =  P.. | N.. A.. | L | R             as in Driver/SetShow.v (each A makes fresh element
                                                  objects: pool entry number = how many A came before)
             |  AS <form> <id> <tag>              AddRecord*(the element objects of pool entry tag, id)
@@ -90,7 +91,8 @@ Fixpoint parse_gevents (fuel : nat) (l : list string) : option (list gevent) :=
           end
       | "W" :: r => option_map (cons (GRefresh 0%N)) (parse_gevents f r)
       | "X" :: q :: r =>
-          match parse_N q with
+          (* "X -": the new process is left as InitExportingProcess made it (counter 0) *)
+          match (if String.eqb q "-" then Some 0%N else parse_N q) with
           | Some q' => option_map (cons (GReconnect q')) (parse_gevents f r)
           | None => None
           end
